@@ -37,9 +37,16 @@ def run_checked(ctx):
     if ctx.replay and sc.replay(ctx, ["-c02"], hargs, (False, True, False)):
         return
     hists = sc.hstore(["-mode", "hist", "-n", n, "-seed", ctx.seed, "-c02"] + hargs)
+    hists += sc.single_proc_histories(ctx.seed, ["-c02"], hargs, 8 if ctx.quick() else 100)
     bad = sc.model_mismatches(ctx, "cases_c02", hists, False, True, False, shard=100)
     sc.report(ctx, ctx.seed, hargs, hists, bad)
     sc.oracle_check(ctx, ctx.seed, hargs, hists, *(False, True, False))
+    # updates under contexts that turn cancelled in the middle of the call: whatever AddTriples / RemoveTriples return, the
+    # graph must still satisfy lookup = scan (audited on the implementation against its own Triples())
+    fc = sc.hstore(["-mode", "faultctx", "-n", 400 if ctx.quick() else 6000, "-seed", ctx.seed])[0]
+    ctx.cov["fault_context_calls"] = {"calls": fc["calls"], "returned_errors": fc["errors"]}
+    if fc["bad"]:
+        ctx.violation({"kind": "indexes-out-of-step-after-an-interrupted-update", "detail": fc})
     dist = sc.distribution(hists)
     ctx.cov.update(dist)
     st = [sum(h["lookup_stats"][i] for h in hists) for i in range(4)]
